@@ -1,6 +1,7 @@
 import DeltaModel.Proto
 import DeltaModel.Options
 import DeltaModel.GitParams
+import DeltaModel.ThemeChoice
 /-!
 Model driver for C13 (`drv_opts`).
 
@@ -33,6 +34,11 @@ Response: `ok <x features joined by space> <v1> <v2> …` with one `v` per probe
 
 `opts.params <x text of GIT_CONFIG_PARAMETERS>` → `ok <x lines "key TAB value">`: the pairs `GitParams.parsePairs` finds,
 in order, full keys; `PANIC` when the reader panics.
+
+`opts.theme <pi> <cli> <cliFeatures> <envFeatures> <envNavigate> <noGitconfig> <defaultCfg> <configFile> <params text>
+            <bat> <shouldDetect> <detected>` — the request of `opts.resolveraw` without probes, plus `bat` = `-` or x<hex> of
+`BAT_THEME`, `shouldDetect` 0 | 1, `detected` `-` | `light` | `dark` (what the terminal answered). Answer:
+`ok fatal` | `ok stuck` | `ok <light 0|1> <dark 0|1> <mode light|dark> <x theme name>` (`ThemeChoice.run`).
 
 `opts.info` → `ok <x flagIteration> <x builtin names joined by space>`.
 `opts.tablekeys` → `ok <x feature:opt,opt,…;feature:…>` (keys of the generated builtin tables).
@@ -88,6 +94,27 @@ def stepOpts (line : String) : String :=
   | ["opts.tablekeys"] =>
     "ok " ++ hexOfString (";".intercalate (allBuiltins.map fun (n, t) =>
       n ++ ":" ++ ",".intercalate (t.map (·.1))))
+  | ["opts.theme", pi, cli, cf, ef, en, ng, dc, cfg, params, bat, sd, det] =>
+    match stringOfField pi, stringOfField cli, optField cf, optField ef, natOfField en,
+          natOfField ng, optField dc, optField cfg, optField params, optField bat, natOfField sd with
+    | some pi, some cli, some cf, some ef, some en, some ng, some dc, some cfg, some params, some bat, some sd =>
+      match GitParams.paramsOfEnv params with
+      | none => "PANIC params"
+      | some ps =>
+        let inp : Inputs :=
+          { cli := parsePairs cli, cliFeatures := cf, envFeatures := ef, envNavigate := en ≠ 0,
+            noGitconfig := ng ≠ 0, defaultFile := dc.map parseGitFile,
+            configFile := cfg.map parseGitFile, params := ps }
+        let π := (pi.splitOn " ").filter (· ≠ "")
+        let detected : Option ThemeChoice.Mode :=
+          if det = "light" then some .light else if det = "dark" then some .dark else none
+        match ThemeChoice.run (ThemeChoice.inOf π inp bat (sd ≠ 0) detected) with
+        | .fatal => "ok fatal"
+        | .stuck => "ok stuck"
+        | .chosen s m t =>
+          "ok " ++ (if s.light then "1" else "0") ++ " " ++ (if s.dark then "1" else "0") ++ " " ++
+            (match m with | .light => "light" | .dark => "dark") ++ " " ++ hexOfString t
+    | _, _, _, _, _, _, _, _, _, _, _ => "ERR"
   | ["opts.params", raw] =>
     match stringOfField raw with
     | some raw =>
